@@ -62,9 +62,11 @@ def make_scenarios(ctx, count):
             r = rng.random()
             if r < 0.08:
                 frame(G.f_discover(rng, net, m=m, tos=0, ack=False, nstations=2, gen=1))     # the mapper repeats its Discover
-            elif r < 0.11:
+            elif r < 0.16:
                 frame(G.f_discover(rng, net, m=m, tos=0, ack=True, nstations=2, gen=1))      # ... and acknowledges us: session complete
-                ticks(rng.randint(1, 8), 100)
+                nt = rng.choice([0, 0, 0, 1, 2, 8])          # usually at once: the enumeration engine is still waiting
+                if nt:
+                    ticks(nt, 100)
                 frame(G.f_discover(rng, net, m=(m + 1) % 3, tos=0, ack=False, nstations=1, gen=2))
             elif r < 0.13:
                 frame(G.f_reset(rng, net, m=m))
@@ -150,8 +152,18 @@ def monitor(scn, sobj, rep, sf, ck):
                 if own_hello and heard > 0:
                     seen.add("own-hello-and-block-end-in-one-tick")
                 heard = 0
-            elif own_hello and heard > 0:
-                seen.add("own-hello-inside-a-block-with-hellos-heard")
+            else:
+                if own_hello and heard > 0:
+                    seen.add("own-hello-inside-a-block-with-hellos-heard")
+                # between block ends the Hello deadline moves only when the own Hello is sent (re-armed from then), when it is
+                # put off by the 1 s pacing rule, or when enumeration starts afresh: nothing else may pull it in
+                if prev is not None and not init and not own_hello and prev["hello"] != 0 and cur["hello"] != 0 and cur["hello"] < prev["hello"]:
+                    rep.violation("C13:history:hello-deadline-pulled-in",
+                                  "scenario %s input %d (%s): the next Hello was due at t=%d (count %d), after this input it is due at t=%d although "
+                                  "no block ended and no own Hello was sent" % (scn.sid, inp.n, inp.op, prev["hello"], prev["Ni"], cur["hello"]),
+                                  replay=sobj.text())
+                elif prev is not None and prev["state"] == 2 and cur["state"] == 1:
+                    seen.add("wait>pausing")
             prev = cur
     rep.evaluations += blocks
     rep.count("history_block_ends", blocks)
@@ -176,5 +188,5 @@ def run(ctx):
     c = rep.counters
     rep.need("history_block_ends", c.get("history_block_ends", 0), 2000)
     rep.need("history_block_ends_with_formula", c.get("history_block_ends_with_formula", 0), 500)
-    for name in ("formula-applied", "saturated", "no-update:nothing-heard", "own-hello-inside-a-block-with-hellos-heard"):
+    for name in ("wait>pausing", "formula-applied", "saturated", "no-update:nothing-heard", "own-hello-inside-a-block-with-hellos-heard"):
         rep.need(name, c.get("reach:" + name, 0), 20)
